@@ -1,5 +1,5 @@
 //! C09: packets for A, B, A xor B, c*A and for every byte column of A alone, for many symbol sizes T.
-use crate::util::{Opts, Trace, catch};
+use crate::util::{Opts, Trace, catch, structured};
 use rand::{Rng, SeedableRng, rngs::StdRng};
 use raptorq::{EncodingPacket, ObjectTransmissionInformation as Oti, Octet, SourceBlockEncoder, SourceBlockEncodingPlan};
 use serde_json::{Value, json};
@@ -25,8 +25,17 @@ pub fn run(o: &Opts) {
         let f: Vec<usize> = job.split(':').map(|x| x.parse().unwrap()).collect();
         let (k, t) = (f[0], f[1]);
         let use_plan = ji % 2 == 1;
-        let a: Vec<u8> = (0..k * t).map(|_| rng.random()).collect();
-        let b: Vec<u8> = (0..k * t).map(|_| rng.random()).collect();
+        // data kinds alternate: random pair / structured pair / structured A with B equal to A on some symbols
+        let kind = (ji / 2) % 3;
+        let a: Vec<u8> = if kind == 0 { (0..k * t).map(|_| rng.random()).collect() } else { structured(&mut rng, k, t) };
+        let mut b: Vec<u8> = if kind == 0 { (0..k * t).map(|_| rng.random()).collect() } else { structured(&mut rng, k, t) };
+        if kind == 2 {
+            for i in 0..k {
+                if rng.random_range(0..3) == 0 {
+                    b[i * t..(i + 1) * t].copy_from_slice(&a[i * t..(i + 1) * t]);
+                }
+            }
+        }
         let c: u8 = rng.random_range(2..=255);
         let ab: Vec<u8> = a.iter().zip(b.iter()).map(|(x, y)| x ^ y).collect();
         // the scalar multiple is computed with the crate's own Octet; its correctness is C10
@@ -58,7 +67,7 @@ pub fn run(o: &Opts) {
                 .collect();
             (esis, pl(&a, &cfg), pl(&b, &cfg), pl(&ab, &cfg), pl(&ca, &cfg), cols)
         }));
-        let mut ev: Value = json!({"ev":"lin","k":k,"t":t,"c":c,"route": if use_plan {"plan"} else {"new"}});
+        let mut ev: Value = json!({"ev":"lin","k":k,"t":t,"c":c,"data":(["random","structured","structured+equal"][kind]),"route": if use_plan {"plan"} else {"new"}});
         match r {
             Ok((esis, pa, pb, pab, pca, cols)) => {
                 ev["res"] = json!("ok");
